@@ -288,3 +288,58 @@ def from_dense(sym, legs, n, arr, dtype=None, keys=None):
         sl = tuple(slice(*o[t]) for o, t in zip(offs, key))
         blocks[key] = np.array(arr[sl])
     return D.HTensor(sym, legs, n, blocks, dtype or str(arr.dtype))
+
+# ------------------------------------------------------------------ designed spectra (degeneracies, exact zeros)
+
+def design_values(rng, k):
+    pat = rng.choice(("dyadic", "dyadic+zeros", "equal", "levels"))
+    if pat == "equal":
+        return [1.0] * k
+    if pat == "levels":
+        lv = [1.0, 0.5, 0.1]
+        return sorted((rng.choice(lv) for _ in range(k)), reverse=True)
+    v = [2.0 ** -rng.randint(0, 4) for _ in range(k)]
+    if pat.endswith("zeros"):
+        v = [0.0 if rng.random() < 0.25 else x for x in v]
+    return sorted(v, reverse=True)
+
+
+def redesign_svd(rng, ht, flatL, flatR):
+    """Same legs, sector-wise U diag(designed) V: spectrum with exact (to rounding) degeneracies and zeros."""
+    sec = Sectors(ht, flatL, flatR, 1, ht.n)
+    M = np.zeros_like(sec.M)
+    for t, (r, c) in sec.sec.items():
+        u, s, v = np.linalg.svd(sec.matrix(t), full_matrices=False)
+        M[np.ix_(r, c)] = (u * np.array(design_values(rng, len(s)))[None, :]) @ v
+    dims = [ht.legs[i].dim for i in tuple(flatL) + tuple(flatR)]
+    arr = np.transpose(M.reshape(dims), np.argsort(tuple(flatL) + tuple(flatR)))
+    return from_dense(ht.sym, ht.legs, ht.n, arr, ht.dtype, keys=sorted(ht.blocks))
+
+
+def redesign_eigh(rng, h, flatL, flatR, psd):
+    sec = Sectors(h, flatL, flatR, 1, h.n)
+    M = np.zeros_like(sec.M)
+    for t, (r, c) in sec.sec.items():
+        ev, u = np.linalg.eigh(sec.matrix(t))
+        d = np.array(design_values(rng, len(ev)))
+        if not psd:
+            d = d * np.array([rng.choice((1, -1)) for _ in d])
+        X = (u * d[None, :]) @ u.conj().T
+        M[np.ix_(r, c)] = (X + X.conj().T) / 2
+    dims = [h.legs[i].dim for i in tuple(flatL) + tuple(flatR)]
+    arr = np.transpose(M.reshape(dims), np.argsort(tuple(flatL) + tuple(flatR)))
+    return from_dense(h.sym, h.legs, h.n, arr, h.dtype, keys=sorted(h.blocks))
+
+
+def square_psd(h, flatL, flatR):
+    """h h^+ over the same legs (positive semi-definite, same sectors)."""
+    dims = [h.legs[i].dim for i in tuple(flatL) + tuple(flatR)]
+    L = int(np.prod(dims[:len(flatL)]))
+    M = np.transpose(h.dense(), tuple(flatL) + tuple(flatR)).reshape(L, L)
+    P = M @ M.conj().T
+    P = (P + P.conj().T) / 2
+    arr = np.transpose(P.reshape(dims), np.argsort(tuple(flatL) + tuple(flatR)))
+    # support: every charge-allowed block between rows / columns that h covers
+    pres = [set(k[i] for k in h.blocks) for i in range(h.rank)]
+    keys = [k for k in D.allowed_keys(h.sym, h.legs, h.n) if all(k[i] in pres[i] for i in range(h.rank))]
+    return from_dense(h.sym, h.legs, h.n, arr, h.dtype, keys=keys)
